@@ -1431,6 +1431,12 @@ impl Fsm {
     /// * check if all state/transition references are correct (all states have a document-id)
     /// * check if all special scxml conditions are satisfied.
     fn valid(&self) -> bool {
+        if self.pseudo_root == 0 || self.states.is_empty() {
+            // Nothing was read, e.g. the source contained no <scxml> element at all.
+            #[cfg(feature = "Trace")]
+            self.tracer.trace("The FSM has no states");
+            return false;
+        }
         for state in &self.states {
             if state.doc_id == 0 {
                 #[cfg(feature = "Trace")]
